@@ -150,3 +150,15 @@ impl<'w, 's, T: Send + Sync + 'static> SystemEvent<'w, 's, T>
 }
 
 //-------------------------------------------------------------------------------------------------------------------
+
+#[cfg(feature = "verif")]
+impl SystemEventAccessTracker
+{
+    /// Returns (number of prepared entries, currently reacting).
+    pub(crate) fn verif_state(&self) -> (usize, bool)
+    {
+        (self.prepared.len(), self.currently_reacting)
+    }
+}
+
+//-------------------------------------------------------------------------------------------------------------------
